@@ -705,7 +705,13 @@ func addTimeSubs(cfg *ResponseConfig, a *asset, period *m.Period, languages []st
 		st.SetTimescale(SUBS_TIME_TIMESCALE)
 
 		if vST.Duration != nil {
-			st.Duration = Ptr(*vST.Duration * 1000 / vST.GetTimescale())
+			if (uint64(*vST.Duration)*SUBS_TIME_TIMESCALE)%uint64(vST.GetTimescale()) == 0 {
+				st.Duration = Ptr(uint32(uint64(*vST.Duration) * SUBS_TIME_TIMESCALE / uint64(vST.GetTimescale())))
+			} else {
+				// The duration is not a whole number of milliseconds. Use the video timescale to avoid drift.
+				st.Duration = Ptr(*vST.Duration)
+				st.SetTimescale(vST.GetTimescale())
+			}
 		}
 		if vST.StartNumber != nil {
 			st.StartNumber = vST.StartNumber
